@@ -172,6 +172,8 @@ func (o seatOp) String() string {
 	switch o.kind {
 	case "init-random":
 		return fmt.Sprintf("init(random,draw=%d)", o.draw)
+	case "rassign", "rsit":
+		return fmt.Sprintf("%s(draw=%d)->%d", o.kind, o.draw, o.seat)
 	case "init-first":
 		return "init(first)"
 	case "rotate":
@@ -228,6 +230,10 @@ func seatApply(m *seatMirror, op seatOp) (after *seatMirror, errStr string, ndra
 			if err = s.AssignSeats(map[string]int{id: op.seat}); err == nil {
 				err = s.JoinPlayers([]string{id})
 			}
+		case "rassign", "rsit": // random seat: the seat manager draws it; the occupant is renamed p<seat> afterwards
+			if err = s.RandomAssignSeats([]string{"tmp"}); err == nil && op.kind == "rsit" {
+				err = s.JoinPlayers([]string{"tmp"})
+			}
 		case "join":
 			err = s.JoinPlayers([]string{id})
 		case "bust":
@@ -248,7 +254,7 @@ func seatApply(m *seatMirror, op seatOp) (after *seatMirror, errStr string, ndra
 		}
 		after = mirrorOf(s)
 	}
-	if op.kind != "init-random" {
+	if op.kind != "init-random" && op.kind != "rassign" && op.kind != "rsit" {
 		// no randomness involved: call directly (the shims degrade to plain operations outside a world)
 		func() {
 			defer func() {
@@ -335,6 +341,7 @@ func (b *seatBFS) run(st *SuiteStats) {
 		m, miss := seatExpand(cur, b.n, b.rule)
 		var ops []seatOp
 		occ := m.occupied()
+		randomAdded := false
 		for s := 0; s < b.n; s++ {
 			p := m.SeatData[s]
 			if p == nil {
@@ -343,6 +350,14 @@ func (b *seatBFS) run(st *SuiteStats) {
 						ops = append(ops, seatOp{kind: "sit", seat: s})
 					} else {
 						ops = append(ops, seatOp{kind: "assign", seat: s})
+					}
+					if !randomAdded {
+						randomAdded = true
+						if b.lite {
+							ops = append(ops, seatOp{kind: "rsit", draw: 0})
+						} else {
+							ops = append(ops, seatOp{kind: "rassign", draw: 0})
+						}
 					}
 				}
 				continue
@@ -368,9 +383,24 @@ func (b *seatBFS) run(st *SuiteStats) {
 			op := ops[i]
 			after, errStr, ndraws := seatApply(m, op)
 			b.transitions++
-			if op.kind == "init-random" && op.draw == 0 {
+			if (op.kind == "init-random" || op.kind == "rassign" || op.kind == "rsit") && op.draw == 0 {
 				for d := 1; d < ndraws; d++ {
-					ops = append(ops, seatOp{kind: "init-random", draw: d})
+					ops = append(ops, seatOp{kind: op.kind, draw: d})
+				}
+			}
+			if (op.kind == "rassign" || op.kind == "rsit") && after != nil {
+				op.seat = -1
+				for sx := 0; sx < b.n; sx++ {
+					if p := after.SeatData[sx]; p != nil && p.ID == "tmp" {
+						p.ID = fmt.Sprintf("p%d", sx)
+						op.seat = sx
+					}
+				}
+				if op.seat < 0 {
+					if errStr == "" {
+						b.violate(int32(head), op, "C05:random-seat-not-given", "RandomAssignSeats returned nil but the player holds no seat", m, after)
+					}
+					continue
 				}
 			}
 			if after == nil {
@@ -447,7 +477,7 @@ func (b *seatBFS) oracle(from int32, op seatOp, before, after *seatMirror, errSt
 	}
 	newMiss := append([]int8(nil), miss...)
 	switch op.kind {
-	case "assign", "sit":
+	case "assign", "sit", "rassign", "rsit":
 		p := after.SeatData[op.seat]
 		if errStr == "" && p != nil {
 			want := before.IsInit && b.rule == sm.Rule_Default && strictlyBetween(n, before.DealerSeatID, before.BBSeatID, op.seat)
